@@ -3,7 +3,7 @@ from vlib import pipeline
 from checks import calc_common as cc
 
 CFG = "T_C03.cfg"
-UNIVERSES = ["order", "policy"]
+UNIVERSES = ["order", "policy", "names"]
 
 
 def nontrivial(evs):
@@ -48,12 +48,14 @@ def selftest(ctx):
                             t[d][0], t[d][1] = t[d][1], t[d][0]
                             return evs
 
-    def swap_tiers(evs):
+    def swap_tiers(evs):         # every endpoint lists its first two tiers in the opposite order
+        n = 0
         for e in evs:
             if e["ev"] == "emit" and e["m"]["kind"] in ("wep_update", "hep_update") and len(e["m"]["body"]["tiers"]) >= 2:
                 ts = e["m"]["body"]["tiers"]
                 ts[0], ts[1] = ts[1], ts[0]
-                return evs
+                n += 1
+        return evs if n else None
 
     def lose_policy(evs):        # a matching policy missing from the list
         for e in evs:
